@@ -46,4 +46,17 @@ def profGet {α} (r : Res α) (c : Counters) : Res α × Counters :=
   | .ok v => (.ok v, { c with hits := c.hits + 1 })
   | .error e => (.error e, { hits := c.hits + 1, failed := c.failed + (if e.isA .exception then 1 else 0) })
 
+/-- The wrapper's generator loop as written, one `next(it)` per step: `hit_count[0] += 1` BEFORE the
+    fetch, taken back when the fetch ends with `StopIteration`, `hit_count[1] += 1` when it raises an
+    `Exception`; the consumer resumes the generator `demand` times (`none`: until it ends) — a
+    generator that is not resumed executes nothing. -/
+def profLoop {α} : List α → Option Err → Option Nat → Counters → Stream α × Counters
+  | _, _, some 0, c => (⟨[], none⟩, c)
+  | [], none, _, c => (⟨[], none⟩, { c with hits := c.hits + 1 - 1 })
+  | [], some e, _, c =>
+    (⟨[], some e⟩, { hits := c.hits + 1, failed := c.failed + (if e.isA .exception then 1 else 0) })
+  | x :: xs, e, d, c =>
+    let r := profLoop xs e (d.map (· - 1)) { c with hits := c.hits + 1 }
+    (⟨x :: r.1.vals, r.1.err⟩, r.2)
+
 end LazyDs.Profile
